@@ -58,6 +58,8 @@ def assemble(repo, cdir, unit, mutate=None, mustfail=False):
         if unit.get("global_edits") and it["path"][-1].startswith("fn "):
             it = dict(it, edits=list(unit["global_edits"]) + list(it.get("edits") or []))
         ex = extract_item(repo, it, log)
+        if ex is None:
+            continue
         if mutate and mutate.get("item") in (None, ex["name"]):
             n = ex["text"].count(mutate["find"])
             if n >= 1:
